@@ -1103,6 +1103,14 @@ class Facts:
         except Exception:
             pass
         for f in self.j["functions"]:
+            # `log::debug!(..)` written with its path is the macro `debug!`
+            for b_ in f.get("blocks", []):
+                t_ = b_.get("term")
+                if t_:
+                    for k_ in ("exp_outer", "exp"):
+                        v_ = t_.get(k_)
+                        if isinstance(v_, str) and v_.startswith("log::"):
+                            t_[k_] = v_[5:]
             fn = Fn(f, self)
             self.fns[fn.key] = fn
             self.by_name[fn.name].append(fn)
